@@ -191,6 +191,31 @@ def run(ctx):
     # ---- R7 zone-map predicates say 'no' only on a definite order (rules/c14.py zone_map_definite_no)
     from .c14 import zone_map_definite_no
     zone_map_definite_no(ctx, ctx.program(), "R7")
+    # ---- R8 three-valued combination of pruning verdicts: check_zone_map_for_predicate answers Some(false) ("no row can
+    # match": the filter becomes an EmptyOperator) for `a OR b` only when both sides are Some(false), and for `a AND b` only
+    # when at least one side is. "false OR unknown" is unknown.
+    zp = P.fn("Planner::check_zone_map_for_predicate")
+    zx = FlowCx(P, zp)
+    n8 = 0
+    for (bi, si, rv, ln) in find_aggregates(zp, "core::option::Option", "Some"):
+        if not (rv[4] and rv[4][0][0] == "k" and str(rv[4][0][1]) in ("0", "false")):
+            continue
+        ops = [x[2] for x in zx.facts_at(bi) if x[0] == "variant" and x[1].endswith("BinaryOp")]
+        if not ops or ops[0] not in ("Or", "And"):
+            continue
+        n8 += 1
+        def side_false(side):
+            return lambda x: x[0] == "bool" and x[1] is False and any(t == "cell:Binary." + side for t in x[2])
+        l_ok = zx.every_path_has(bi, side_false("left"))
+        r_ok = zx.every_path_has(bi, side_false("right"))
+        either = zx.every_path_has(bi, lambda x: side_false("left")(x) or side_false("right")(x))
+        ok = (l_ok and r_ok) if ops[0] == "Or" else either
+        ctx.ob("R8", "check_zone_map_for_predicate#%s-no" % ops[0], ok,
+               what="check_zone_map_for_predicate answers 'no row matches' for an %s although %s: a filter whose other side cannot be "
+                    "classified by the zone map is replaced by an empty result" %
+                    (ops[0].upper(), "not both sides were ruled out" if ops[0] == "Or" else "neither side was ruled out"), where=zp.loc(ln))
+    ctx.floor("R8", n8, 2, "Some(false) verdicts of compound predicates")
+
 
 def variant_pairs(P, fn):
     """(variant of arg A, variant of arg B) pairs under which fn does real work (a call, comparison or cast)"""
